@@ -7,7 +7,7 @@ call-site assertion `config`), how RETURN propagates (C01 / C06) and which limit
 """
 from pyvc.contracts import contract
 from pyvc.vocab import (forall, implies, ubig, sha256, same, dict_same, str_keys_same, strint_keys_same,
-                        all_values_refs, is_list_or_absent, list_len_at, use_lemma, strint_part)
+                        all_values_refs, is_list_or_absent, list_len_at, use_lemma, strint_part, AnyError, lemma_point)
 from tapescript.errors import ScriptExecutionError
 from tapescript.classes import Tape, Stack
 from tapescript.functions import (bytes_to_bool, run_tape, set_tape_flags, flags, flags_to_set, clamp_scalar,
@@ -17,6 +17,7 @@ from contracts.common import stack_ok, tape_ok
 from contracts.functions_ops import (OPCK, OPC_WEAK, vm_ok, clean, sigfields_ok, rd_u8, rd_u16, flags_typed,
                                      no_plugins_at_all, ks_same_but_returned, opc_post, flags_complete, defs_ok)
 from contracts.functions_ops2 import plugins_ok, SIG_EXT, spec_check_sig, spec_verify
+from contracts.functions_ops3 import padded, imax
 from time import time
 import os
 
@@ -213,6 +214,21 @@ def spec_eval(tape, stack, cache):
             del cache['returned']
 
 
+def abs_eval_stop(tape, stack, cache):
+    """lemma-local stand-in for OP_EVAL on an arbitrary supplied script: the lemma states its claim at
+    the point where the script would start (`no instruction of the supplied script executes unless
+    ...`), and the run ends there -- what an arbitrary script then does is its own business"""
+    if 'disallow_OP_EVAL' in tape.flags:
+        raise AnyError
+    if tape.callstack_count >= tape.callstack_limit:
+        raise AnyError
+    script = stack.get()
+    if len(script) == 0:
+        raise AnyError
+    lemma_point('eval', script, stack)
+    raise AnyError
+
+
 @contract('functions.OP_EVAL')
 class OP_EVAL_c:
     requires = requires_complete
@@ -393,7 +409,6 @@ class OP_CALL_c:
 # ------------------------------------------------------------------------------------ MERKLEVAL
 @contract('functions.OP_MERKLEVAL')
 class OP_MERKLEVAL_c:
-    trusted = True      # TEMPORARY: spec stated, verification exceeds the budget (see DESIGN.md)
     requires = requires_complete
     """C04: 'sha256(sha256(script)) xor sha256(sibling) == root, EQUAL_VERIFY, then EVAL': with stack
     [..., h, s] and operand root: ScriptExecutionError, nothing evaluated, unless
@@ -404,15 +419,20 @@ class OP_MERKLEVAL_c:
 
     def spec(tape, stack, cache):
         root = tape.read(32)
+        if len(stack.deque) < 2:
+            raise AnyError                      # "rejected with an error": the property does not name the class
         s = stack.get()
         h = stack.get()
-        stack.put(h)
-        stack.put(s)          # (depth and item limits as the instruction sequence meets them)
-        check_room(stack, 2)
-        if xor(sha256(sha256(s)), sha256(h)) != root:
-            raise ScriptExecutionError
-        stack.get()
-        stack.get()
+        # the instruction sequence holds one item more than it found (OP_DUP) and pushes 32-byte digests
+        if len(stack.deque) + 3 > stack.max_items or stack.max_item_size < 32:
+            raise AnyError
+        # operand order as OP_XOR takes them (xor is commutative; the contract of `xor` is stated on its
+        # arguments in order); both digests are 32 bytes, so OP_XOR's zero padding adds nothing
+        a = sha256(h)
+        b = sha256(sha256(s))
+        n = imax(len(a), len(b))
+        if xor(padded(a, n), padded(b, n)) != root:
+            raise AnyError
         stack.put(s)
         spec_eval(tape, stack, cache)
 
@@ -426,7 +446,6 @@ def check_room(stack, n):
 # -------------------------------------------------------------------------------------- TAPROOT
 @contract('functions.OP_TAPROOT')
 class OP_TAPROOT_c:
-    trusted = True      # TEMPORARY: spec stated, verification exceeds the budget (see DESIGN.md)
     """C05: 'a witness holding (script, key) causes the script to run exactly when that pair recomputes
     to the root; otherwise the verdict is false and no instruction of the supplied script executes';
     'a witness holding a signature succeeds exactly when the signature is valid under the root as
@@ -461,6 +480,10 @@ class OP_TAPROOT_c:
 
 
 # ------------------------------------------------------------------------- run_script / run_auth_scripts
+def has_returned(cache_vals):
+    return 'returned' in cache_vals
+
+
 def embedder_ok(cache_vals, contracts, plugins):
     """valid embedder input: message parts are bytes, plugin scopes are lists, no interpreter control
     key is supplied (excluded: a caller-supplied 'returned' entry -- the interpreter's own flag lives in
